@@ -914,8 +914,8 @@ theorem neutral_num {u : String} {dt : DT} {e x : Val} (h : neutralFiller u dt =
           | (rename_i heq; cases heq <;>
              first
              | (with_reducible exact and_ones_int b sg n hw)
-             | (with_reducible exact fmax_min_int _ _ n hbd.1)
-             | (with_reducible exact fmin_max_int _ _ n hbd.2))
+             | (with_reducible exact fmax_min_int b sg _ n hbd.1 hw)
+             | (with_reducible exact fmin_max_int b sg _ n hbd.2 hw))
     | _ => simp [inDT] at hx
   | flt bits =>
     cases x with
